@@ -508,6 +508,9 @@ func genTrackerScript(r *rand.Rand, deep bool) []top {
 func emitTrackerCase(c *vlib.Ctx, cid int, script []top, rec map[string]any) {
 	rec["cid"] = cid
 	rec["in"] = map[string]any{"script": script}
+	if rec["dead"] == true {
+		c.AddExtra("cases_tracker_given_up", 1)
+	}
 	c.Emit(rec)
 	c.Eval()
 	c.TraceDone()
